@@ -1,6 +1,6 @@
 """C02 - driver follows least-advanced-first and updates only what is needed."""
 from .. import bootstrap  # noqa: F401
-from ..gen import gen_e1
+from ..gen import gen_e1, gen_e1_long
 from ..monitor import run_e1
 from ..findings import e1_known_sig
 
@@ -31,6 +31,8 @@ def generate(tape, tier="quick"):
         # real library components stepping with relativedelta (months from a month-end day, mixed with days)
         from ..calendar import gen_calendar
         return gen_calendar(tape)
+    if tape.chance(1, 150):
+        return gen_e1_long(tape)
     return gen_e1(tape, tier, cycle_chance=(1, 2))
 
 
@@ -40,6 +42,8 @@ RULE = RULE + (" A 1/15 share of the runs is the calendar family (sim/calendar.p
                "one for the requested time; run ends at or beyond the end time).")
 REAL = list(REAL) + ["CallbackGenerator / CallbackComponent with relativedelta steps (calendar family)"]
 CAL_OWN = ('cal-announced-vs-actual', 'cal-run-raises')
+
+RULE = RULE + (' A 1/150 share is the large family (gen.gen_e1_long): a series of 14-70 components each reading its upstream neighbour while connecting, listed downstream-first / upstream-first / shuffled, or an hourly producer read through a delay of 130-260 hours by a slow consumer (and directly by a prompt one).')
 
 
 def execute(sc):
